@@ -100,7 +100,8 @@ def _toDOMname(CSSname):
     return _reCSStoDOMname.sub(_doCSStoDOMname2, CSSname)
 
 
-_reDOMtoCSSname = re.compile('([A-Z])[a-z]+')
+# a capital followed by lower-case letters, or a single capital that ends the name (overflowX)
+_reDOMtoCSSname = re.compile('([A-Z])[a-z]+|(?<=[a-z])[A-Z]$')
 
 
 def _toCSSname(DOMname):
